@@ -26,7 +26,7 @@ def FLOORS(tier):
     f = {"constraint-histories": 350 if q else 10000, "reductions": 120 if q else 4000, "partial-substitution": 80,
          "arbitrary-float-weight": 80, "logical-method": 100, "class:PCBO": 100, "class:PCSO": 100,
          "symbol-really-present": 300 if q else 9000, "independence-probes": 300, "reduction:nothing-to-reduce": 15,
-         "subs-form:dict": 60, "subs-form:pairs": 60, "subs-form:positional": 40, "huge-weight": 60, "symbol-inside-constraint-polynomial": 60,
+         "subs-form:dict": 60, "subs-form:pairs": 60, "subs-form:positional": 40, "huge-weight": 60, "symbol-inside-constraint-polynomial": 60, "original-with-name-and-user-mapping": 100,
          "reduction:symbolic-model-coefficients": 30}
     for s in C.SHAPES:
         f["shape:" + s] = 8 if q else 300
@@ -119,7 +119,13 @@ def case(ctx, rng, idx):
         x_, y_, z_ = rng.sample(labs, 3)
         R = rng.choice(["eq", "le", "ge", "lt", "gt"])
         sp = sympy.Symbol("p%d" % len(syms))
-        if R == "eq" or rng.random() < 0.4:
+        if rng.random() < 0.25:
+            # the z == x*y special shape with one symbolic weight on both terms: w*z - w*x*y == 0
+            R = "eq"
+            val = rng.choice([1, 2, 3])
+            Pn = {(z_,): val, (x_, y_): -val}
+            where = "AND-form"
+        elif R == "eq" or rng.random() < 0.4:
             val = rng.choice([2, 3])
             Pn = {(x_,): val, (y_,): -1, ((z_, x_) if rng.random() < 0.5 else (z_,)): 2, (): rng.choice([-1, 0, 1])}
             where = (x_,)
@@ -141,7 +147,9 @@ def case(ctx, rng, idx):
         for st in steps:
             if st[0] == "relsym":
                 P_ = dict(st[2])
-                if symbolic:
+                if symbolic and st[5] == "AND-form":
+                    P_ = {k_: (st[6] if v_ > 0 else -st[6]) for k_, v_ in P_.items()}
+                elif symbolic:
                     P_[st[5]] = st[6]
                 lam = st[4] if symbolic else syms[st[4]]
                 getattr(H, "add_constraint_%s_zero" % st[1])(P_, lam=lam, **st[3])
@@ -174,6 +182,15 @@ def case(ctx, rng, idx):
         elif st[0] == "rel" and len(st) == 6:
             ctx.cat("shape:" + st[5])
             ctx.cat("rel:" + st[1])
+    if rng.random() < 0.3:
+        # the symbolic original has a history of its own: a name and a user enumeration, which subs() of course leaves alone
+        vs_ = list(Hs.mapping)
+        pm_ = list(range(len(vs_)))
+        rng.shuffle(pm_)
+        Hs.set_mapping({v_: pm_[i_] for i_, v_ in enumerate(vs_)})
+        Hs.name = "symbolic-original"
+        ctx.cat("original-with-name-and-user-mapping")
+    label_state = (Hs.name, Hs.mapping, Hs.variables, Hs.num_binary_variables)
     snap = dict(Hs)
     snap_cons = Hs.constraints
     nsym = has_symbol(Hs)
@@ -207,6 +224,10 @@ def case(ctx, rng, idx):
         return
     if dict(Hs) != snap or Hs.constraints != snap_cons:
         ctx.violation("subs:original-mutated", "the symbolic model changed under subs", w)
+        return
+    if (Hs.name, Hs.mapping, Hs.variables, Hs.num_binary_variables) != label_state:
+        ctx.violation("subs:original-mutated:name-or-mapping", "subs changed the original's name / mapping / variables: %r -> %r" % (
+            label_state, (Hs.name, Hs.mapping, Hs.variables, Hs.num_binary_variables)), w)
         return
     if ok and Hn is Hs:
         ctx.violation("subs:returns-the-original-object", "subs returned the model itself (later edits of the result change the original)", w)
@@ -244,8 +265,8 @@ def case(ctx, rng, idx):
     for v in Hn._constraints.values():
         v.append(type(Hn)())
     ctx.count("independence-probes")
-    if dict(Hs) != snap or Hs.constraints != snap_cons:
-        ctx.violation("subs:result-aliases-original", "editing the substituted model changed the original", w)
+    if dict(Hs) != snap or Hs.constraints != snap_cons or (Hs.name, Hs.mapping, Hs.variables, Hs.num_binary_variables) != label_state:
+        ctx.violation("subs:result-aliases-original", "editing the substituted model changed the original (terms, constraints, mapping or variables)", w)
         return
     Hn[("__probe__",)] -= 1
     for v in Hn._constraints.values():
